@@ -230,11 +230,15 @@ Definition call_time (b : behav) : cres :=
   end.
 Definition raises_cancel (b : behav) : bool := match b with BCancel => true | _ => false end.
 
-(* what a task hands back to the run loop: success (with the error items its output stream may
-   still carry, and whether it cancelled the context), or one of a non-empty list of possible
-   task errors (several only where the implementation is nondeterministic), or out of nesting fuel *)
+(* What a stream may still hold for whoever reads it: an error item, or a convert function that
+   panics on the goroutine of the reader (a lazily panicking stream). *)
+Inductive item : Type := IErr (e : err) | ILazy (info : N).
+
+(* what a task hands back to the run loop: success (with what its output stream may still hold,
+   and whether it cancelled the context), or one of a non-empty list of possible task errors
+   (several only where the implementation is nondeterministic), or out of nesting fuel *)
 Inductive nres : Type :=
-| NOk (items : list err) (cancel : bool)
+| NOk (items : list item) (cancel : bool)
 | NErr (es : list err)
 | NFuel.
 
@@ -246,9 +250,15 @@ Definition of_call (wrap : err -> err) (c : cres) (ok : nres) : nres :=
   | CPanic i => NErr [PanicErr i]
   end.
 
+(* a node that reads its input stream to the end on the executor's goroutine: an error item is
+   turned into the node's error by [how]; a lazily panicking stream panics there and the
+   executor's recover makes it the task's error *)
+Definition consume (how : err -> err) (it : item) : err :=
+  match it with IErr e => how e | ILazy i => PanicErr i end.
+
 (* a lambda with one native paradigm, called through composableRunnable.i (value mode) or .t
-   (stream mode); [items] = error items the input stream carries (stream mode only) *)
-Definition exec_lambda (stream : bool) (items : list err) (f : flavour) (b : behav) : nres :=
+   (stream mode); [items] = what the input stream holds (stream mode only) *)
+Definition exec_lambda (stream : bool) (items : list item) (f : flavour) (b : behav) : nres :=
   let c := call_time b in
   let canc := raises_cancel b in
   if negb stream then
@@ -267,22 +277,22 @@ Definition exec_lambda (stream : bool) (items : list err) (f : flavour) (b : beh
     match f with
     | FI => match items with
             | [] => of_call (wrap_stream TransformByInvoke) c (NOk [] canc)
-            | _ => NErr (map (concat_fail TransformByInvoke) items)
+            | _ => NErr (map (consume (concat_fail TransformByInvoke)) items)
             end
     | FS => match items with
             | [] => of_call (wrap_stream TransformByStream) c
                       (match b with
-                       | BItem e => NOk [e] canc
-                       | BConvPanic i => NOk [PanicErr i] canc
+                       | BItem e => NOk [IErr e] canc
+                       | BConvPanic i => NOk [ILazy i] canc
                        | _ => NOk [] canc
                        end)
-            | _ => NErr (map (concat_fail TransformByStream) items)
+            | _ => NErr (map (consume (concat_fail TransformByStream)) items)
             end
     | FC => match items with          (* the harness body drains its input first and returns the item as it is *)
             | [] => of_call (wrap_stream TransformByCollect) c (NOk [] canc)
-            | _ => NErr (map (wrap_stream TransformByCollect) items)
+            | _ => NErr (map (consume (wrap_stream TransformByCollect)) items)
             end
-    | FT => of_call (fun e => e) c (NOk items canc)   (* lazy: input items pass through *)
+    | FT => of_call (fun e => e) c (NOk items canc)   (* lazy: what the input holds passes through *)
     end.
 
 (* ToolsNode.Invoke / Stream: tool 0 runs on the node's own goroutine (its panic is the node's
@@ -298,8 +308,14 @@ Fixpoint first_tool_error (stream : bool) (wrap : err -> err) (ts : list tool) :
       if stream then first_tool_error stream wrap ts' else Some (Wrapf (PanicErr i))
   end.
 
-Definition tool_conv_panics (ts : list tool) : list err :=
-  flat_map (fun t => match t with TConvPanic i => [PanicErr i] | _ => [] end) ts.
+(* ToolsNode.Stream: with two or more calls the tools' streams are merged, each convert reader
+   behind a forwarding goroutine whose recover turns the panic into an error item; a single
+   call's stream is handed on as it is *)
+Definition tool_conv_panics (ts : list tool) : list item :=
+  flat_map (fun t => match t with
+                     | TConvPanic i => [match ts with [_] => ILazy i | _ => IErr (PanicErr i) end]
+                     | _ => []
+                     end) ts.
 
 Definition tool0_panics (stream : bool) (t0 : tool) : option N :=
   match t0 with
@@ -308,7 +324,7 @@ Definition tool0_panics (stream : bool) (t0 : tool) : option N :=
   | _ => None
   end.
 
-Definition exec_tools (stream : bool) (items : list err) (ts : list tool) : nres :=
+Definition exec_tools (stream : bool) (items : list item) (ts : list tool) : nres :=
   match ts with
   | [] => NErr [if stream then wrap_stream TransformByStream (Leaf id_misc) else Leaf id_misc]
   | t0 :: _ =>
@@ -328,16 +344,17 @@ Definition exec_tools (stream : bool) (items : list err) (ts : list tool) : nres
           | None => NOk (tool_conv_panics ts) false
           end
       end
-    | its => NErr (map (concat_fail TransformByStream) its)
+    | its => NErr (map (consume (concat_fail TransformByStream)) its)
     end
   end.
 
 (* ------------------------------------------------------------------ Part 3: the run loop *)
 
 Inductive gres : Type :=
-| GDone (items : list err) (cancelled : bool)
+| GDone (items : list item) (cancelled : bool)
 | GFail (es : list err)      (* the legal returned errors (one per possible completion order) *)
 | GInt                       (* interrupted: *interruptError at top level, *subGraphInterruptError below *)
+| GPanic (info : N)          (* a panic leaves runner.run on the goroutine that called it *)
 | GFuel.
 
 (* resolveInterruptCompletedTasks over the completed tasks of one step: every failing task's
@@ -346,9 +363,9 @@ Inductive gres : Type :=
 Definition is_interrupt_task (e : err) : bool :=
   existsb is_subinterrupt_e (chain e) || is_ (Leaf id_rerun) e.
 
-Inductive sres : Type := SOk (items : list err) (cancelled : bool) | SFail (es : list err) | SInt (items : list err) | SFuel.
+Inductive sres : Type := SOk (items : list item) (cancelled : bool) | SFail (es : list err) | SInt (items : list item) | SFuel.
 
-Fixpoint stage_fold (rs : list (string * nres)) (items : list err) (canc : bool)
+Fixpoint stage_fold (rs : list (string * nres)) (items : list item) (canc : bool)
                     (fails : list err) (int : bool) (fuel_out : bool) : sres :=
   match rs with
   | [] => if fuel_out then SFuel
@@ -374,12 +391,45 @@ Definition effective_max (g : graph) : nat :=
   if g_dag g then List.length (g_stages g)                       (* no limit: exactly enough fuel *)
   else match g_max g with O => count_nodes (g_stages g) + 10 | m => m end.
 
+(* Streams between steps (schema/stream.go).  One output stream read by n >= 2 successors is
+   copied: the children share each element through a sync.Once, so when reading the source
+   panics the first child to get there panics and every other child finds a finished Once
+   with no element: it receives ErrRecvAfterClosed.  m >= 2 streams into one successor are
+   merged: convert readers and copy children are put behind forwarding goroutines (toStream)
+   whose recover turns a panic into an error item. *)
+Definition is_lazy (it : item) : bool := match it with ILazy _ => true | _ => false end.
+
+Definition fanout (n : nat) (its : list item) : list item :=
+  match n with
+  | O | S O => its
+  | _ => its ++ (if existsb is_lazy its then [IErr (Leaf id_recv_closed)] else [])
+  end.
+
+Definition forwarded (it : item) : item :=
+  match it with ILazy i => IErr (PanicErr i) | _ => it end.
+
+Definition fanin (m : nat) (its : list item) : list item :=
+  match m with
+  | O | S O => its
+  | _ => map forwarded its
+  end.
+
+Fixpoint first_lazy (its : list item) : option N :=
+  match its with
+  | [] => None
+  | ILazy i :: _ => Some i
+  | _ :: r => first_lazy r
+  end.
+
+Definition item_errors (its : list item) : list err :=
+  flat_map (fun it => match it with IErr e => [e] | ILazy _ => [] end) its.
+
 Section Run.
   Variable F : forest.
   Variable stream : bool.
 
   (* one node of the frontier; [rec] runs a sub-graph (one nesting level down) *)
-  Definition exec_node (rec : graph -> list err -> bool -> gres) (items : list err) (canc : bool) (n : node) : nres :=
+  Definition exec_node (rec : graph -> list item -> bool -> gres) (items : list item) (canc : bool) (n : node) : nres :=
     match n with
     | NLam _ f b => exec_lambda stream items f b
     | NTools _ ts => exec_tools stream items ts
@@ -391,14 +441,19 @@ Section Run.
             | GDone it c => NOk it c
             | GFail es => NErr es
             | GInt => NErr [SubInterruptE]
+            | GPanic i => NErr [PanicErr i]       (* the executor of the sub-graph node recovers it *)
             | GFuel => NFuel
             end
         end
     end.
 
-  (* the main loop: [k] steps remain before the limit, [cur] = stages still ahead in this round *)
-  Fixpoint steps (rec : graph -> list err -> bool -> gres) (all : list (list node)) (loop : bool)
-                 (k : nat) (cur : list (list node)) (items : list err) (canc : bool) {struct k} : gres :=
+  Definition width_of_first (sts : list (list node)) : nat :=
+    match sts with [] => 1 | st :: _ => List.length st end.
+
+  (* the main loop: [k] steps remain before the limit, [cur] = stages still ahead in this round;
+     [items] = what the input stream of each node of the next stage holds *)
+  Fixpoint steps (rec : graph -> list item -> bool -> gres) (all : list (list node)) (loop : bool)
+                 (k : nat) (cur : list (list node)) (items : list item) (canc : bool) {struct k} : gres :=
     match cur with
     | [] => GDone items canc
     | st :: rest =>
@@ -408,26 +463,34 @@ Section Run.
       | S k' =>
         match stage_fold (map (fun n => (node_key n, exec_node rec items canc n)) st) [] canc [] false false with
         | SFail es => GFail es
-        | SInt [] => GInt
         | SInt its =>
-            (* the checkpoint is converted to values: the finished siblings' output streams are read;
-               an error item there is returned as it is found (not an interrupt, no wrapper) *)
-            GFail (map (fun e => Wrapf (Wrapf e)) its)
+            (* the checkpoint is converted to values on the run loop's goroutine: the finished
+               siblings' output streams are read; an error item there is returned as it is found
+               (not an interrupt, no wrapper), a lazily panicking stream panics there *)
+            match first_lazy its, item_errors its with
+            | Some i, _ => GPanic i
+            | None, [] => GInt
+            | None, es => GFail (map (fun e => Wrapf (Wrapf e)) es)
+            end
         | SFuel => GFuel
         | SOk it c =>
+          (* every output is copied for the successors (END counts as one), then each successor
+             merges what its predecessors sent *)
+          let out n := fanin (List.length st) (fanout n it) in
           match rest with
-          | [] => if loop then steps rec all loop k' all it c else GDone it c
-          | _ => steps rec all loop k' rest it c
+          | [] => if loop then steps rec all loop k' all (out (width_of_first all)) c else GDone (out 1%nat) c
+          | _ => steps rec all loop k' rest (out (width_of_first rest)) c
           end
         end
       end
     end.
 
   (* runner.run of graph g at nesting fuel d *)
-  Fixpoint run_graph (d : nat) (g : graph) (items : list err) (canc : bool) : gres :=
+  Fixpoint run_graph (d : nat) (g : graph) (items : list item) (canc : bool) : gres :=
     match d with
     | O => GFuel
-    | S d' => steps (run_graph d') (g_stages g) (g_loop g) (effective_max g) (g_stages g) items canc
+    | S d' => steps (run_graph d') (g_stages g) (g_loop g) (effective_max g) (g_stages g)
+                    (fanout (width_of_first (g_stages g)) items) canc
     end.
 End Run.
 
@@ -440,6 +503,7 @@ Inductive answer : Type :=
 | AOk
 | AErr (e : err)      (* the call returns e *)
 | AItem (e : err)     (* the call returns a stream; reading it yields the error item e *)
+| APanic              (* a panic reaches the caller's goroutine (in the call or while reading the result) *)
 | AFuel.
 
 Definition top_error (p : paradigm) (e : err) : err :=
@@ -455,17 +519,19 @@ Definition answers (F : forest) (p : paradigm) (cancel_before : bool) (in_item :
   | [] => [AFuel]
   | g :: _ =>
     let stream := match p with PInvoke => false | _ => true end in
-    let items := match p, in_item with (PCollect | PTransform), Some e => [e] | _, _ => [] end in
+    let items := match p, in_item with (PCollect | PTransform), Some e => [IErr e] | _, _ => [] end in
     match run_graph F stream (S (List.length F)) g items cancel_before with
     | GFuel => [AFuel]
     | GInt => [AErr InterruptE]
+    | GPanic _ => [APanic]
     | GFail es => map (fun e => AErr (top_error p e)) es
     | GDone [] _ => [AOk]
     | GDone its _ =>
-        match p with
-        | PCollect => map (fun e => AErr (concat_fail CollectByTransform e)) its
-        | _ => map AItem its
-        end
+        map (fun it => match it, p with
+                       | ILazy _, _ => APanic
+                       | IErr e, PCollect => AErr (concat_fail CollectByTransform e)
+                       | IErr e, _ => AItem e
+                       end) its
     end
   end.
 
